@@ -240,3 +240,40 @@ case("c18-add-wrapper-no-conv", "C18", SECP, "    return from_jacobian(jacobian_
 case("c18-twin-ge-gt", "C18", SECP, "    if n < 0 or n >= N:", "    if n < 0 or n > N:", expect="silent")
 case("c18-twin-mul256", "C18", SECP, "        o = (o << 8) + safe_ord(b)", "        o = o * 256 + safe_ord(b)", expect="silent")
 case("c18-twin-parity-and", "C18", SECP, "    if (n % 2) == 0:", "    if (n & 1) == 0:", expect="silent", more=[(SECP, "    if (n % 2) == 1:", "    if (n & 1) == 1:", 1)])
+
+# ---------------------------------------------------------------- C19
+case("c19-v-widened", "C19", SECP, "    if v not in (27, 28):", "    if v not in (27, 28, 29, 30):", rule="C19.R1")
+case("c19-v-gate-removed", "C19", SECP, "    if v not in (27, 28):\n        raise ValueError(f\"value of v was {v}, must be either 27 or 28\")\n", "")
+case("c19-no-r-zero-check", "C19", SECP, " or not (r % N) or not (s % N):", " or not (s % N):", rule="C19.R1")
+case("c19-no-s-zero-check", "C19", SECP, " or not (r % N) or not (s % N):", " or not (r % N):", rule="C19.R1")
+case("c19-no-residue-check", "C19", SECP, "    if (xcubedaxb - y * y) % P != 0 or not (r % N)", "    if not (r % N)", rule="C19.R1")
+case("c19-r-zero-plain", "C19", SECP, " or not (r % N) or not (s % N):", " or not r or not s:")
+case("c19-parity-inverted", "C19", SECP, "    y = beta if v % 2 ^ beta % 2 else (P - beta)", "    y = (P - beta) if v % 2 ^ beta % 2 else beta", rule="C19.R2")
+case("c19-parity-ignored", "C19", SECP, "    y = beta if v % 2 ^ beta % 2 else (P - beta)", "    y = beta")
+case("c19-gz-positive", "C19", SECP, "(N - z) % N)", "z % N)", rule="C19.R3")
+case("c19-inv-mod-P", "C19", SECP, "    Q = jacobian_multiply(Qr, inv(r, N))", "    Q = jacobian_multiply(Qr, inv(r, P))", rule="C19.R3")
+case("c19-raises-keyerror", "C19", SECP, "        raise ValueError(\n            f\"sig is invalid, {r} cannot be the x coord for point on curve\"\n        )", "        raise KeyError(\"sig is invalid\")")
+case("c19-exponent-wrong", "C19", SECP, "    beta = pow(xcubedaxb, (P + 1) // 4, P)", "    beta = pow(xcubedaxb, (P - 1) // 4, P)")
+case("c19-twin-v-chain", "C19", SECP, "    if v not in (27, 28):", "    if v != 27 and v != 28:", expect="silent")
+case("c19-twin-set", "C19", SECP, "    if v not in (27, 28):", "    if v not in [28, 27]:", expect="silent")
+case("c19-twin-eq-form", "C19", SECP, "    if (xcubedaxb - y * y) % P != 0 or", "    if (y * y - xcubedaxb) % P != 0 or", expect="silent")
+
+# ---------------------------------------------------------------- C06
+case("c06-v-pred-differs", "C06", SECP, "v, r, s = 27 + ((y % 2) ^ (0 if s * 2 < N else 1)), r, s if s * 2 < N else N - s",
+     "v, r, s = 27 + ((y % 2) ^ (0 if s * 2 <= N + 2 else 1)), r, s if s * 2 < N else N - s")
+case("c06-no-low-s", "C06", SECP, "v, r, s = 27 + ((y % 2) ^ (0 if s * 2 < N else 1)), r, s if s * 2 < N else N - s",
+     "v, r, s = 27 + (y % 2), r, s", rule="C06.R1")
+case("c06-s-lt-N", "C06", SECP, "r, s if s * 2 < N else N - s", "r, s if s < N else N - s")
+case("c06-sequential-assign", "C06", SECP, "    v, r, s = 27 + ((y % 2) ^ (0 if s * 2 < N else 1)), r, s if s * 2 < N else N - s",
+     "    s = s if s * 2 < N else N - s\n    v = 27 + ((y % 2) ^ (0 if s * 2 < N else 1))")
+case("c06-v-no-flip", "C06", SECP, "27 + ((y % 2) ^ (0 if s * 2 < N else 1))", "27 + (y % 2)", rule="C06.R4")
+case("c06-eq-missing-r", "C06", SECP, "    s = inv(k, N) * (z + r * bytes_to_int(priv)) % N", "    s = inv(k, N) * (z + bytes_to_int(priv)) % N", rule="C06.R2")
+case("c06-inv-mod-P", "C06", SECP, "    s = inv(k, N) * (z + r * bytes_to_int(priv)) % N", "    s = inv(k, P) * (z + r * bytes_to_int(priv)) % N")
+case("c06-nonce-round-dropped", "C06", SECP, "    k = hmac.new(k, v + b\"\\x01\" + priv + msghash, hashlib.sha256).digest()\n    v = hmac.new(k, v, hashlib.sha256).digest()\n", "", rule="C06.R3")
+case("c06-nonce-order", "C06", SECP, "    k = hmac.new(k, v + b\"\\x00\" + priv + msghash, hashlib.sha256).digest()", "    k = hmac.new(k, v + b\"\\x00\" + msghash + priv, hashlib.sha256).digest()")
+case("c06-nonce-args-swapped", "C06", SECP, "    k = deterministic_generate_k(msghash, priv)", "    k = deterministic_generate_k(priv, msghash)")
+case("c06-nonce-sha512", "C06", SECP, "    return bytes_to_int(hmac.new(k, v, hashlib.sha256).digest())", "    return bytes_to_int(hmac.new(k, v, hashlib.sha512).digest())")
+case("c06-nonce-init-v", "C06", SECP, '    v = b"\\x01" * 32\n    k = b"\\x00" * 32', '    v = b"\\x00" * 32\n    k = b"\\x01" * 32')
+case("c06-twin-flag-var", "C06", SECP, "    v, r, s = 27 + ((y % 2) ^ (0 if s * 2 < N else 1)), r, s if s * 2 < N else N - s",
+     "    high = not s * 2 < N\n    v, r, s = 27 + ((y % 2) ^ (1 if high else 0)), r, N - s if high else s", expect="silent")
+case("c06-twin-half", "C06", SECP, "r, s if s * 2 < N else N - s", "r, s if 2 * s < N else N - s", expect="silent", more=[(SECP, "(0 if s * 2 < N else 1)", "(0 if 2 * s < N else 1)", 1)])
